@@ -99,9 +99,19 @@ func RunOne(w Workload, s *scn.Scn, replay, keepTrace bool) *Exec {
 		d := NewExec(s)
 		d.Dry = true
 		curExec = d
+		beforeDry := raceErrors()
 		SetMapSeed(s.MapSeed | 1)
 		w.Run(s, d)
 		SetMapSeed(0)
+		if n := raceErrors() - beforeDry; n > 0 {
+			// The dry run executes the clients one after the other, but they are
+			// still separate goroutines with no synchronisation between them other
+			// than what the code under test performs: a report here is a race like
+			// any other (and the detector would not repeat it in the scheduled run).
+			rep := readRaceLog()
+			d.Out.Violation = nil
+			d.Fail(raceClass(rep), "%d data race report(s):\n%s", n, rep)
+		}
 		if d.Failed() {
 			d.Out.Violation.Detail = "[sequential dry run] " + d.Out.Violation.Detail
 			d.FinalizeDry()
